@@ -6,6 +6,7 @@ import (
 	"encoding/json"
 	"fmt"
 	"os"
+	"reflect"
 	"strconv"
 	"strings"
 	"sync"
@@ -20,6 +21,7 @@ import (
 	"seata.apache.org/seata-go/pkg/protocol/message"
 	"seata.apache.org/seata-go/pkg/remoting/loadbalance"
 	"seata.apache.org/seata-go/pkg/remoting/rpc"
+	"seata.apache.org/seata-go/pkg/rm"
 	"seata.apache.org/seata-go/pkg/rm/tcc"
 	"seata.apache.org/seata-go/pkg/tm"
 
@@ -64,11 +66,11 @@ type Case struct {
 	Kind    string   `json:"kind"` // selection | reconnect | xid-routing
 	Actions []Action `json:"actions,omitempty"`
 	// reconnect
-	Losses   int    `json:"losses,omitempty"`
-	LossAt   string `json:"loss_at,omitempty"` // idle | between-phases
+	Losses int    `json:"losses,omitempty"`
+	LossAt string `json:"loss_at,omitempty"` // idle | between-phases
 	// Bystander: a second coordinator session stays open while the first is lost and re-established
 	Bystander bool `json:"bystander,omitempty"`
-	Sessions int    `json:"sessions,omitempty"`
+	Sessions  int  `json:"sessions,omitempty"`
 }
 
 func runSelection(c Case) *pt.Failure {
@@ -399,28 +401,43 @@ func runXidRouting(c Case) *pt.Failure {
 	for i := 0; i < 12; i++ {
 		fail := i%2 == 1
 		_ = tm.WithGlobalTx(context.Background(), &tm.GtxConfig{Name: "c19-route"}, func(cx context.Context) error {
+			// every kind of request that carries the xid: branch register, lock query, branch report
+			xid := tm.GetXID(cx)
+			r := rm.GetRMRemotingInstance()
+			if id, err := r.BranchRegister(rm.BranchRegisterParam{BranchType: branch.BranchTypeAT, ResourceId: "c19-res", Xid: xid, LockKeys: fmt.Sprintf("t:%d", i)}); err == nil {
+				_ = r.BranchReport(rm.BranchReportParam{BranchType: branch.BranchTypeAT, Xid: xid, BranchId: id, Status: branch.BranchStatusPhaseoneDone})
+			}
+			_, _ = r.LockQuery(rm.LockQueryParam{BranchType: branch.BranchTypeAT, ResourceId: "c19-res", Xid: xid, LockKeys: fmt.Sprintf("t:%d", 100+i)})
 			if fail {
 				return fmt.Errorf("x")
 			}
 			return nil
 		})
 	}
+	seen := map[string]int{}
 	for _, e := range tc.Events() {
-		if e.Dir != "c2s" {
+		if e.Dir != "c2s" || e.Body == nil {
 			continue
 		}
-		var xid string
-		switch b := e.Body.(type) {
-		case message.GlobalCommitRequest:
-			xid = b.Xid
-		case message.GlobalRollbackRequest:
-			xid = b.Xid
-		default:
+		// any message with an Xid field (also one promoted from an embedded struct)
+		v := reflect.ValueOf(e.Body)
+		if v.Kind() != reflect.Struct {
 			continue
 		}
+		f := v.FieldByName("Xid")
+		if !f.IsValid() || f.Kind() != reflect.String || f.String() == "" || strings.Count(f.String(), ":") < 2 {
+			continue
+		}
+		xid := f.String()
+		seen[fmt.Sprintf("%T", e.Body)]++
 		addr := xid[:strings.LastIndex(xid, ":")]
 		if got := ss[e.Session-ss[0].N].RemoteAddr(); got != addr {
-			return pt.Failf("C19/xid-routing", "second phase of %s was sent to the session connected to %s although the session to %s is open (XID policy)", xid, got, addr)
+			return pt.Failf("C19/xid-routing", "%T of %s was sent to the session connected to %s although the session to %s is open (XID policy)", e.Body, xid, got, addr)
+		}
+	}
+	for _, want := range []string{"message.GlobalCommitRequest", "message.GlobalRollbackRequest", "message.BranchRegisterRequest", "message.BranchReportRequest", "message.GlobalLockQueryRequest"} {
+		if seen[want] == 0 {
+			return pt.Failf("C19/harness", "no %s was observed in the routing history (seen: %v)", want, seen)
 		}
 	}
 	return nil
